@@ -8,6 +8,8 @@
 //     getg <th> <E> <name>
 //     def  <th> <E> <name> <int>   define a function `name()` returning the int -> ok | err
 //     call <th> <E> <name>         -> value | undef
+//     conv <th> <E> <k>            register the user conversion CSrc<k> -> CDst<k> (k = 0..2) in engine E -> ok | err (already there)
+//     useconv <th> <E> <k>         call a function that needs that conversion -> 10 + k | undef
 //   output: the results of getl/getg/def/call, comma separated
 #include <chaiscript/chaiscript.hpp>
 #include "vcommon.hpp"
@@ -18,6 +20,16 @@
 #include <queue>
 #include <thread>
 using namespace chaiscript;
+
+// user types with a conversion an engine may or may not have registered (property: conversions are per engine)
+template<int K> struct CSrc { int v; };
+template<int K> struct CDst { int v; };
+template<int K> static void add_conv_api(ChaiScript &c) {
+  const std::string k = std::to_string(K);
+  c.add(fun([]() { return CSrc<K>{K + 10}; }), "cmk" + k);
+  c.add(fun([](const CDst<K> &d) { return d.v; }), "ctake" + k);
+}
+template<int K> static void add_conv(ChaiScript &c) { c.add(type_conversion<CSrc<K>, CDst<K>>([](const CSrc<K> &s) { return CDst<K>{s.v}; })); }
 
 struct Worker {
   std::thread th;
@@ -75,7 +87,11 @@ int main() {
         const int slot = std::stoi(w[2]);
         const int th = w.size() == 4 ? std::stoi(w[3]) : 0;                 // the thread that runs the constructor
         ChaiScript *p = nullptr;
-        on(th, [&]() -> std::string { p = slot < NSLOT ? new (pool[slot]) ChaiScript() : new ChaiScript(); return ""; });
+        on(th, [&]() -> std::string {
+          p = slot < NSLOT ? new (pool[slot]) ChaiScript() : new ChaiScript();
+          add_conv_api<0>(*p); add_conv_api<1>(*p); add_conv_api<2>(*p);
+          return "";
+        });
         engines[w[1]] = {p, slot};
       } else if (w[0] == "del" && (w.size() == 2 || w.size() == 3)) {
         auto it = engines.find(w[1]);
@@ -104,6 +120,11 @@ int main() {
             if (w[0] == "setg") { try { c.eval("global " + name + " = " + val); } catch (const chaiscript::exception::eval_error &) { return "err"; } return ""; }
             if (w[0] == "def") { try { c.eval("def " + name + "() { " + val + " }"); return "ok"; } catch (const chaiscript::exception::eval_error &) { return "err"; } }
             if (w[0] == "call") return eval_int(c, name + "()");
+            if (w[0] == "conv") {                 // register conversion <name> (0..2) in this engine
+              try { if (name == "0") add_conv<0>(c); else if (name == "1") add_conv<1>(c); else add_conv<2>(c); return "ok"; }
+              catch (const std::exception &) { return "err"; }
+            }
+            if (w[0] == "useconv") return eval_int(c, "ctake" + name + "(cmk" + name + "())");
             return "badop";
           });
         }
